@@ -550,6 +550,41 @@ pub fn check_witness_clone(case: &Case, tree: &Node, cx: &mut Ctx) -> Option<Fin
     None
 }
 
+/// C11, fault-free, string entry only: the read-only string-level entry must not depend on what
+/// was evaluated before. The source is evaluated read-only, then a *whitespace twin* of it (the
+/// blanks inside its string literals doubled: a different program that differs only in
+/// whitespace) is evaluated read-only and mutably on fresh contexts; the twin's two outcomes must
+/// agree (trees without assignment operators). Reference-free.
+pub fn check_whitespace_twin(case: &Case, src: Option<&str>, cx: &mut Ctx) -> Option<Finding> {
+    let src = src?;
+    if !src.contains("a b") {
+        return None;
+    }
+    let twin = src.replace("a b", "a  b");
+    let twin_tree = build_operator_tree::<DefaultNumericTypes>(&twin).ok()?;
+    if tree_has_assignment(&twin_tree) {
+        return None;
+    }
+    let first_tree = build_operator_tree::<DefaultNumericTypes>(src).ok()?;
+    let kind = case.kind;
+    // first the original, read-only, through the string entry (whatever it leaves behind)
+    let _ = run_real(&first_tree, Some(src), &case.setup, kind, Path::Imm, Entry::Str, case.typed, &[]);
+    let o_imm = run_real(&twin_tree, Some(&twin), &case.setup, kind, Path::Imm, Entry::Str, case.typed, &[]);
+    let o_mut = run_real(&twin_tree, Some(&twin), &case.setup, kind, Path::Mut, Entry::Str, case.typed, &[]);
+    cx.stats.add("evaluations_real", 3);
+    cx.stats.inc("c11.whitespace_twin_checked");
+    diff_class(&o_mut, &o_imm, false).map(|class| {
+        finding(
+            Prop::C11,
+            class,
+            "read-only-string-entry-depends-on-previous-evaluation(whitespace twin)",
+            &[],
+            &o_mut,
+            &o_imm,
+        )
+    })
+}
+
 /// Which seam calls of a fault-free history can be failed for this context kind.
 pub fn fault_positions(log: &[Ev]) -> Vec<usize> {
     (0..log.len()).collect()
@@ -583,6 +618,9 @@ pub fn check_case(
     }
     if prop == Prop::C11 {
         if let Some(f) = check_witness_clone(case, &tree, cx) {
+            return Some(f);
+        }
+        if let Some(f) = check_whitespace_twin(case, src_ref, cx) {
             return Some(f);
         }
     }
